@@ -1,6 +1,8 @@
 import M3d.Lemmas.FastMapRefine
 import M3d.Lemmas.MeshQueries
 import M3d.Lemmas.MeshIter
+import M3d.Lemmas.MeshObj
+import M3d.Lemmas.MeshBounds
 /-!
 # C09 — a mesh (and the coordinate-keyed maps underneath) answers as the plain set of faces would
 
@@ -298,6 +300,182 @@ example :
     let h : Nat → UInt64 := fun _ => 5      -- every key collides
     let m := [MeshOp.add 0, .add 1, .touch, .add 2, .remove 0].foldl (stepMesh h tri) Mesh.new
     m.faces = [1, 2] ∧ (m.find h tri [1]).2 = [2, 1] ∧ (m.neighbors h tri 1).2 = [] := by
+  decide
+
+/-! ### Derived meshes are new objects: programs over several `*Mesh` variables -/
+open M3d.MeshObj
+
+/-- **A derived mesh is a mesh of its own.**  Go programs hold meshes through pointers; `Copy`,
+`DeepCopy`, `MapCoords`, `Transform`, `Scale`, `Translate`, `Center`, `Rotate`, `InvertNormals` all
+return a NEW object built by `NewMesh()` + `Add` (instruction `derive`).  For every program over any
+number of mesh variables made of `Add` / `Remove` / index-forcing queries / `AddMesh` / such
+derivations — in particular for every interleaving of mutations of a derived mesh and of the mesh
+it was derived from — running the program on the heap of objects (`runObj`: a mutation changes
+the object behind the handle, whoever else points to it) gives behind every handle exactly the mesh
+that the value semantics gives (`runVal`: a mutation through one variable changes that variable
+only), and every one of these meshes is coherent; hence (next theorem) every query through every
+handle is answered from the faces that were put into *that* mesh.  The only hypothesis is that no
+instruction makes two variables name one object (`alias`) — which none of the library's methods
+does; the example below shows that the statement fails as soon as one does (`Translate` returning
+its receiver for a zero offset). -/
+theorem derived_meshes_are_new_objects (h : Nat → UInt64) (tri : Nat → Tri) (nv : Nat)
+    (ops : List OOp) (na : ∀ op ∈ ops, op.isAlias = false) :
+    (runObj h tri ops (OState.init nv)).view = runVal h tri ops (List.replicate nv Mesh.new) ∧
+      ∀ m ∈ runVal h tri ops (List.replicate nv Mesh.new), Coherent h tri m := by
+  refine ⟨?_, ?_⟩
+  · rw [← view_init nv]
+    exact (runObj_view_aux h tri ops na _ (wfo_init nv)).1
+  · apply runVal_coherent
+    intro m hm
+    rw [List.eq_of_mem_replicate hm]
+    exact coherent_new h tri
+
+/-- **Every handle answers as a freshly built list of the faces of its own mesh**: after any
+alias-free program, the mesh behind handle `v` on the object heap answers `Find` / `VertexSlice` /
+`Neighbors` from the bare face list of the value-semantics mesh of `v` — whatever was done in the
+meantime to the meshes it was derived from or that were derived from it. -/
+theorem handles_answer_as_fresh (h : Nat → UInt64) (tri : Nat → Tri) (nv : Nat)
+    (ops : List OOp) (na : ∀ op ∈ ops, op.isAlias = false) (v : Nat) :
+    let m := (runObj h tri ops (OState.init nv)).deref v
+    m = (runVal h tri ops (List.replicate nv Mesh.new)).getD v Mesh.new ∧
+    (∀ p rest, (m.find h tri (p :: rest)).2.Perm (specFind tri m.faces (p :: rest))) ∧
+    ((m.vertexSlice h tri).2.Nodup ∧ ∀ p, p ∈ (m.vertexSlice h tri).2 ↔ p ∈ specVertices tri m.faces) ∧
+    (∀ f g, g ∈ (m.neighbors h tri f).2 ↔ g ∈ specNeighbors tri m.faces f) := by
+  intro m
+  obtain ⟨e, c⟩ := derived_meshes_are_new_objects h tri nv ops na
+  have hm : m = (runVal h tri ops (List.replicate nv Mesh.new)).getD v Mesh.new := by
+    show (runObj h tri ops (OState.init nv)).deref v = _
+    rw [deref_eq_view, e]
+  have cm : Coherent h tri m := by rw [hm]; exact getD_coherent h tri _ c v
+  exact ⟨hm, fun p rest => find_perm_spec h tri cm p rest, vertexSlice_spec h tri cm,
+    fun f g => neighbors_spec h tri cm f g⟩
+
+/-- The object a derivation returns holds exactly the faces that were added to it, in that order,
+with no index yet (`NewMesh()` + `Add`): what the driver installs behind the destination handle. -/
+theorem derive_builds_exact_faces (h : Nat → UInt64) (tri : Nat → Tri) (ids : List Nat)
+    (hn : ids.Nodup) :
+    (build h tri ids).faces = ids ∧ (build h tri ids).index = none ∧
+      Coherent h tri (build h tri ids) := by
+  refine ⟨?_, addAll_index_none h tri ids Mesh.new rfl, coherent_build h tri ids⟩
+  have := addAll_faces_nodup h tri ids hn Mesh.new rfl (by intro f _; simp [Mesh.new])
+  simpa [build, addAll, Mesh.new] using this
+
+/-- Non-vacuity, and the reason for the hypothesis: `d := m.Translate(0)` under the seeded change
+C09-15 is `alias 1 0`; after `d.Add(face 1)` the ORIGINAL contains face 1 on the object heap, while
+a derived mesh (`derive 1 [2]`, face 2 = the copy of face 0) leaves it alone and both semantics agree. -/
+example :
+    let tri : Nat → Tri := fun f => if f = 1 then (1, 2, 3) else (0, 1, 2)
+    let h : Nat → UInt64 := fun _ => 5
+    let bad := [OOp.add 0 0, .alias 1 0, .add 1 1]
+    let good := [OOp.add 0 0, .derive 1 [2], .add 1 1, .touch 0]
+    ((runObj h tri bad (OState.init 2)).view.map (·.faces) = [[0, 1], [0, 1]]) ∧
+    ((runVal h tri bad (List.replicate 2 Mesh.new)).map (·.faces) = [[0], [0, 1]]) ∧
+    ((runObj h tri good (OState.init 2)).view.map (·.faces) = [[0], [2, 1]]) ∧
+    ((runVal h tri good (List.replicate 2 Mesh.new)).map (·.faces) = [[0], [2, 1]]) := by
+  decide
+
+/-- **A derived mesh has the mapped faces with the same connectivity.**  Let the derived mesh
+consist of the faces `σ f` (new pointers, or the same ones for `Copy`) for `f` in the source, the
+corners of `σ f` being the images under the coordinate map `g` of the corners of `f` (what the
+driver checks of the faces found in the result).  Then the faces of the derived mesh at the mapped
+points contain the images of the faces of the source at the points — and when `g` merges no two
+vertices of the source they are exactly those: every vertex / edge / face query `Find(g p, g q, …)`
+on the derived mesh answers with the `σ`-images of `Find(p, q, …)` on the source. -/
+theorem derived_same_connectivity (tri : Nat → Tri) (g σ : Nat → Nat) (src ps : List Nat)
+    (hσ : ∀ f ∈ src, tri (σ f) = mapTri g (tri f)) :
+    (∀ f', f' ∈ (specFind tri src ps).map σ → f' ∈ specFind tri (src.map σ) (ps.map g)) ∧
+    ((∀ f ∈ src, ∀ a ∈ triVerts (tri f), ∀ p ∈ ps, g a = g p → a = p) →
+      specFind tri (src.map σ) (ps.map g) = (specFind tri src ps).map σ) := by
+  have corner : ∀ f ∈ src, ∀ q, q ∈ triVerts (tri f) → g q ∈ triVerts (tri (σ f)) := by
+    intro f hf q hq
+    rw [hσ f hf]
+    simp only [triVerts, mapTri, List.mem_cons, List.not_mem_nil, or_false] at hq ⊢
+    rcases hq with e | e | e <;> simp [e]
+  constructor
+  · intro f' hf'
+    obtain ⟨f, hf, e⟩ := List.mem_map.1 hf'
+    subst e
+    unfold specFind at hf ⊢
+    obtain ⟨hfs, hall⟩ := List.mem_filter.1 hf
+    refine List.mem_filter.2 ⟨List.mem_map_of_mem hfs, ?_⟩
+    simp only [List.all_eq_true, decide_eq_true_eq, List.mem_map, forall_exists_index, and_imp,
+      forall_apply_eq_imp_iff₂] at hall ⊢
+    exact fun q hq => corner f hfs q (hall q hq)
+  · intro inj
+    unfold specFind
+    rw [List.filter_map]
+    congr 1
+    apply List.filter_congr
+    intro f hf
+    simp only [Function.comp]
+    apply Bool.eq_iff_iff.2
+    simp only [List.all_eq_true, decide_eq_true_eq, List.mem_map, forall_exists_index, and_imp,
+      forall_apply_eq_imp_iff₂]
+    constructor
+    · intro hall q hq
+      have := hall q hq
+      rw [hσ f hf] at this
+      simp only [triVerts, mapTri, List.mem_cons, List.not_mem_nil, or_false] at this
+      rcases this with e | e | e
+      · have := inj f hf (tri f).1 (by simp [triVerts]) q hq e.symm; rw [← this]; simp [triVerts]
+      · have := inj f hf (tri f).2.1 (by simp [triVerts]) q hq e.symm; rw [← this]; simp [triVerts]
+      · have := inj f hf (tri f).2.2 (by simp [triVerts]) q hq e.symm; rw [← this]; simp [triVerts]
+    · exact fun hall q hq => corner f hf q (hall q hq)
+
+/-- Non-vacuity: a translation (keys `k ↦ k + 10`, faces `f ↦ f + 2`) of two triangles sharing an
+edge: the edge query on the derived mesh returns the two new faces. -/
+example :
+    let tri : Nat → Tri := fun f =>
+      if f = 0 then (0, 1, 2) else if f = 1 then (2, 1, 3) else if f = 2 then (10, 11, 12) else (12, 11, 13)
+    specFind tri [2, 3] [11, 12] = [2, 3] ∧ (specFind tri [0, 1] [1, 2]).map (· + 2) = [2, 3] := by
+  decide
+
+/-! ### Bounds -/
+open M3d.MeshBounds
+
+/-- **`Min()` / `Max()` answer as a freshly built list of the current faces would.**  The loops of
+`Mesh.Min` / `Mesh.Max` run over the faces in Go's map order — some enumeration `order` of the
+current face set.  Over every linear order of scalars, for every assignment of coordinates to the
+vertex keys: the result is the same for every enumeration (so it is what the loop gives on a fresh
+list of the faces), and for a mesh with at least one face every component of `Min` (`Max`) is a
+lower (upper) bound of that component over all corners of all current faces and is attained at one
+of them; the empty mesh answers the zero coordinate. -/
+theorem bounds_eq_fresh {K : Type} [LinearOrder K] (tri : Nat → Tri) (coord : Nat → P3 K) (zero : P3 K)
+    (faces order : List Nat) (hp : order.Perm faces) :
+    let cs := cornerCoords tri coord faces
+    (meshMin zero (cornerCoords tri coord order) = meshMin zero cs ∧
+      meshMax zero (cornerCoords tri coord order) = meshMax zero cs) ∧
+    (faces = [] → meshMin zero cs = zero ∧ meshMax zero cs = zero) ∧
+    (faces ≠ [] →
+      ((∀ p ∈ cs, (meshMin zero cs).x ≤ p.x ∧ (meshMin zero cs).y ≤ p.y ∧ (meshMin zero cs).z ≤ p.z) ∧
+        (∃ p ∈ cs, (meshMin zero cs).x = p.x) ∧ (∃ p ∈ cs, (meshMin zero cs).y = p.y) ∧
+        (∃ p ∈ cs, (meshMin zero cs).z = p.z)) ∧
+      ((∀ p ∈ cs, p.x ≤ (meshMax zero cs).x ∧ p.y ≤ (meshMax zero cs).y ∧ p.z ≤ (meshMax zero cs).z) ∧
+        (∃ p ∈ cs, (meshMax zero cs).x = p.x) ∧ (∃ p ∈ cs, (meshMax zero cs).y = p.y) ∧
+        (∃ p ∈ cs, (meshMax zero cs).z = p.z))) := by
+  intro cs
+  refine ⟨meshBounds_perm zero (hp.flatMap_right _), ?_, ?_⟩
+  · intro e; subst e; exact ⟨rfl, rfl⟩
+  · intro hne
+    have hcs : cs ≠ [] := by
+      obtain ⟨f, fs, e⟩ := List.exists_cons_of_ne_nil hne
+      show cornerCoords tri coord faces ≠ []
+      rw [e]; simp [cornerCoords, Mesh.triVerts]
+    obtain ⟨c, t, e⟩ := List.exists_cons_of_ne_nil hcs
+    rw [e]
+    obtain ⟨⟨ax, bx⟩, ⟨ay, bY⟩, ⟨az, bz⟩⟩ := meshMin_comp zero c t
+    obtain ⟨⟨ax', bx'⟩, ⟨ay', bY'⟩, ⟨az', bz'⟩⟩ := meshMax_comp zero c t
+    exact ⟨⟨fun p hp => ⟨ax p hp, ay p hp, az p hp⟩, bx, bY, bz⟩,
+      ⟨fun p hp => ⟨ax' p hp, ay' p hp, az' p hp⟩, bx', bY', bz'⟩⟩
+
+/-- Non-vacuity: two faces met in either order give the same bounds. -/
+example :
+    let tri : Nat → Tri := fun f => if f = 0 then (0, 1, 2) else (2, 1, 3)
+    let coord : Nat → P3 Int := fun k => ⟨(k : Int) - 1, 2 - (k : Int), if k = 3 then -5 else 0⟩
+    meshMin ⟨0, 0, 0⟩ (cornerCoords tri coord [0, 1]) = ⟨-1, -1, -5⟩ ∧
+    meshMin ⟨0, 0, 0⟩ (cornerCoords tri coord [1, 0]) = ⟨-1, -1, -5⟩ ∧
+    meshMax ⟨0, 0, 0⟩ (cornerCoords tri coord [1, 0]) = ⟨2, 2, 0⟩ ∧
+    meshMax (⟨0, 0, 0⟩ : P3 Int) (cornerCoords tri coord []) = ⟨0, 0, 0⟩ := by
   decide
 
 end M3d.C09
